@@ -211,3 +211,96 @@ Proof. vm_compute. repeat split; reflexivity. Qed.
 Example ex_bowtie_translated :
   rule_set false RSelfIntersection (map_geom (translate (7, -3)) ex_bowtie) = map (translate_h (7, -3)) (rule_set false RSelfIntersection ex_bowtie).
 Proof. vm_compute. reflexivity. Qed.
+
+(* ---- the leaf decision functions of src/operation/valid, GENERATED from /repo on every run (translator/units/C05.py) ---- *)
+From GeosV.Lib Require KernelDefs.
+From GeosV.C05 Require PreludePIA PreludeIVO PIA IVO.
+From GeosV.Gen Require V_isAdjacentInRing V_findInvalidIntersection V_checkRingClosed V_checkRingPointSize V_isValidLine V_isValidRing.
+
+(* PolygonIntersectionAnalyzer::isAdjacentInRing = the adjacency of ValidDefs.self_events (consecutive, or first and last segment) *)
+Theorem C05_gen_isAdjacentInRing : forall ss (m i j : nat), (i < j)%nat -> (j < m)%nat -> PreludePIA.m_size_0 ss = Z.of_nat (S m) ->
+  V_isAdjacentInRing.g_isAdjacentInRing ss (Z.of_nat i) (Z.of_nat j) = adjacent m i j.
+Proof. exact PIA.gen_isAdjacent_valid. Qed.
+Print Assumptions C05_gen_isAdjacentInRing.
+(* findInvalidIntersection returns the code PIA.pair_code assigns to the exact kernel classification of the two segments:
+   none -> no error; proper or collinear -> SELF_INTERSECTION; a touch at a vertex -> no error for adjacent segments of one ring,
+   RING_SELF_INTERSECTION for non-adjacent segments of one ring (OGC mode), else SELF_INTERSECTION iff isCrossing at the node *)
+Theorem C05_gen_findInvalidIntersection : forall isCrossing addSelfTouch addDoubleTouch st ss0 i ss1 j,
+  let p00 := PreludePIA.m_getCoordinate_1 ss0 i in let p01 := PreludePIA.m_getCoordinate_1 ss0 (i + 1) in
+  let p10 := PreludePIA.m_getCoordinate_1 ss1 j in let p11 := PreludePIA.m_getCoordinate_1 ss1 (j + 1) in
+  snd (V_findInvalidIntersection.g_findInvalidIntersection isCrossing addSelfTouch addDoubleTouch st ss0 i ss1 j)
+  = PIA.pair_code isCrossing (PreludePIA.f_isInvertedRingValid st) (PreludePIA.ss_id ss0 =? PreludePIA.ss_id ss1)
+      (PIA.adjacent_z (PreludePIA.m_size_0 ss0) i j) (KernelDefs.seg_class p00 p01 p10 p11) p00 p01 p10 p11 (PIA.prev_pt ss0 i) (PIA.prev_pt ss1 j).
+Proof. exact PIA.gen_find_code. Qed.
+Print Assumptions C05_gen_findInvalidIntersection.
+(* the error codes are the enumerators of TopologyValidationError the rules are numbered by *)
+Theorem C05_gen_codes : PIA.NO_ERROR = -1 /\ PIA.SELF_INTERSECTION = rule_code RSelfIntersection /\ PIA.RING_SELF_INTERSECTION = rule_code RRingSelfIntersection
+  /\ V_checkRingClosed.E_errorEnum_eRingNotClosed = rule_code RRingNotClosed /\ V_checkTooFewPoints.E_errorEnum_eTooFewPoints = rule_code RTooFewPoints.
+Proof. exact PIA.gen_codes. Qed.
+Print Assumptions C05_gen_codes.
+Theorem C05_gen_checkRingClosed : forall r, IVO.logged (V_checkRingClosed.g_checkRingClosed None r) = IVO.expect RRingNotClosed (not_closed_set r).
+Proof. exact IVO.gen_checkRingClosed_rule. Qed.
+Print Assumptions C05_gen_checkRingClosed.
+Theorem C05_gen_checkRingPointSize : forall r, IVO.logged (V_checkRingPointSize.g_checkRingPointSize None r) = IVO.expect RTooFewPoints (too_few_set 4 r).
+Proof. exact IVO.gen_checkRingPointSize_rule. Qed.
+Print Assumptions C05_gen_checkRingPointSize.
+Theorem C05_gen_isValidLine : forall l, l <> [] ->
+  IVO.logged (fst (V_isValidLine.g_isValidLine None l)) = IVO.expect RTooFewPoints (too_few_set 2 l)
+  /\ snd (V_isValidLine.g_isValidLine None l) = isnil (too_few_set 2 l).
+Proof. exact IVO.gen_isValidLine_rule. Qed.
+Print Assumptions C05_gen_isValidLine.
+Example C05_gen_isValidLine_nv : snd (V_isValidLine.g_isValidLine None [(0, 0); (0, 0)]) = false /\ snd (V_isValidLine.g_isValidLine None [(0, 0); (1, 0)]) = true.
+Proof. split; reflexivity. Qed.
+Theorem C05_gen_isValidRing : forall checkRingSimple r,
+  snd (V_isValidRing.g_isValidRing checkRingSimple None r)
+  = isnil (not_closed_set r) && isnil (too_few_set 4 r) && negb (PreludeIVO.m_hasInvalidError_0 (checkRingSimple None r))
+  /\ (not_closed_set r <> [] -> IVO.logged (fst (V_isValidRing.g_isValidRing checkRingSimple None r)) = Some (rule_code RRingNotClosed, not_closed_set r))
+  /\ (not_closed_set r = [] -> too_few_set 4 r <> [] ->
+      IVO.logged (fst (V_isValidRing.g_isValidRing checkRingSimple None r)) = Some (rule_code RTooFewPoints, too_few_set 4 r)).
+Proof. exact IVO.gen_isValidRing_rule. Qed.
+Print Assumptions C05_gen_isValidRing.
+Example C05_gen_isAdjacentInRing_nv : V_isAdjacentInRing.g_isAdjacentInRing (PreludePIA.mkSS 0 [(0,0);(4,0);(4,4);(0,4);(0,0)]) 0 3 = true
+  /\ V_isAdjacentInRing.g_isAdjacentInRing (PreludePIA.mkSS 0 [(0,0);(4,0);(4,4);(0,4);(0,0)]) 0 2 = false.
+Proof. split; reflexivity. Qed.
+
+(* the specification's segment/segment classification names the same case as the kernel's (= the generated LineIntersector) *)
+From GeosV.C05 Require PIABridge.
+Theorem C05_seg_int_is_seg_class : forall a b c d, a <> b -> c <> d -> PIABridge.same_case (KernelDefs.seg_class a b c d) (seg_int a b c d).
+Proof. exact PIABridge.seg_int_same_case. Qed.
+Print Assumptions C05_seg_int_is_seg_class.
+(* OGC mode, two segments i < j of one ring with m non-degenerate segments: the generated findInvalidIntersection returns
+   "no error" iff the specification has no event for the pair (disjoint, or adjacent segments sharing only their vertex),
+   SELF_INTERSECTION iff the pair contributes to bad_pts (proper crossing / collinear overlap: rules 5 and 6),
+   RING_SELF_INTERSECTION iff it contributes a touch point (non-adjacent segments meeting at a vertex: rule 6) *)
+Theorem C05_gen_find_ring_pair : forall isCrossing addSelfTouch addDoubleTouch st ss (m i j : nat),
+  PreludePIA.f_isInvertedRingValid st = false -> (i < j)%nat -> (j < m)%nat -> PreludePIA.m_size_0 ss = Z.of_nat (S m) ->
+  let s := (PreludePIA.m_getCoordinate_1 ss (Z.of_nat i), PreludePIA.m_getCoordinate_1 ss (Z.of_nat i + 1)) in
+  let t := (PreludePIA.m_getCoordinate_1 ss (Z.of_nat j), PreludePIA.m_getCoordinate_1 ss (Z.of_nat j + 1)) in
+  fst s <> snd s -> fst t <> snd t ->
+  let ev := seg_events (adjacent m i j) s t in
+  let code := snd (PIA.gen_find isCrossing addSelfTouch addDoubleTouch st ss (Z.of_nat i) ss (Z.of_nat j)) in
+  (code = PIA.NO_ERROR <-> ev = []) /\ (code = PIA.SELF_INTERSECTION <-> bad_pts ev <> []) /\ (code = PIA.RING_SELF_INTERSECTION <-> touch_pts ev <> []).
+Proof. exact PIABridge.gen_find_ring_pair. Qed.
+Print Assumptions C05_gen_find_ring_pair.
+(* non-vacuity: first and last segment of a square (adjacent by wrap-around: no error); a bow-tie's crossing pair (5); a ring touching itself at a vertex (6) *)
+Example C05_gen_find_ring_pair_nv :
+  let run r i j := snd (PIA.gen_find (fun _ _ _ _ _ => false) (fun st _ _ _ _ _ _ => st) (fun _ _ _ _ => false)
+                          (PreludePIA.mkPia KernelDefs.SegNone false false (0, 0)) (PreludePIA.mkSS 0 r) i (PreludePIA.mkSS 0 r) j) in
+  run [(0,0);(4,0);(4,4);(0,4);(0,0)] 0 3 = -1 /\ run [(0,0);(4,0);(4,4);(0,4);(0,0)] 0 2 = -1
+  /\ run [(0,0);(4,4);(4,0);(0,4);(0,0)] 0 2 = 5 /\ run [(0,0);(4,0);(4,4);(2,0);(0,4);(0,0)] 0 2 = 6 /\ run [(0,0);(4,0);(2,0);(2,4);(0,0)] 0 1 = 5.
+Proof. vm_compute. repeat split; reflexivity. Qed.
+
+(* from the pair to the ring: rule 6's violation set of a ring (no zero-length segment) is non-empty exactly when the generated
+   findInvalidIntersection (OGC mode) flags one of the segment pairs the specification enumerates *)
+From GeosV.C05 Require PIALift.
+Theorem C05_gen_ring_self_rule : forall isCrossing addSelfTouch addDoubleTouch st id (r : list KernelDefs.pt),
+  PreludePIA.f_isInvertedRingValid st = false -> (forall s, In s (segs r) -> fst s <> snd s) ->
+  let ss := PreludePIA.mkSS id r in
+  (ring_self_set r <> [] <->
+   exists pq, In pq (pairs (index_from 0 (segs r))) /\
+              snd (PIA.gen_find isCrossing addSelfTouch addDoubleTouch st ss (Z.of_nat (fst (fst pq))) ss (Z.of_nat (fst (snd pq)))) <> PIA.NO_ERROR).
+Proof. exact PIALift.gen_ring_self_rule. Qed.
+Print Assumptions C05_gen_ring_self_rule.
+Example C05_gen_ring_self_rule_nv : ring_self_set [(0,0);(4,0);(4,4);(2,0);(0,4);(0,0)] <> [] /\ ring_self_set [(0,0);(4,0);(4,4);(0,4);(0,0)] = []
+  /\ forall s, In s (segs [(0,0);(4,0);(4,4);(2,0);(0,4);(0,0)]) -> fst s <> snd s.
+Proof. split; [vm_compute; discriminate|]. split; [vm_compute; reflexivity|]. cbn. intros s [<-|[<-|[<-|[<-|[<-|[]]]]]]; cbn; congruence. Qed.
